@@ -1,0 +1,39 @@
+//go:build verif
+
+/*
+   Copyright The containerd Authors.
+
+   Licensed under the Apache License, Version 2.0 (the "License");
+   you may not use this file except in compliance with the License.
+   You may obtain a copy of the License at
+
+       http://www.apache.org/licenses/LICENSE-2.0
+
+   Unless required by applicable law or agreed to in writing, software
+   distributed under the License is distributed on an "AS IS" BASIS,
+   WITHOUT WARRANTIES OR CONDITIONS OF ANY KIND, either express or implied.
+   See the License for the specific language governing permissions and
+   limitations under the License.
+*/
+
+package cacheutil
+
+// VerifFireExpiry runs exactly what the TTL timer callback of an entry runs
+// (lock + evictLocked), so that a harness can make expiry an explicit
+// operation. Verification builds only.
+func (c *TTLCache) VerifFireExpiry(key string) {
+	c.mu.Lock()
+	defer c.mu.Unlock()
+	c.evictLocked(key)
+}
+
+// VerifKeys returns the keys currently held by the cache.
+func (c *TTLCache) VerifKeys() []string {
+	c.mu.Lock()
+	defer c.mu.Unlock()
+	keys := make([]string, 0, len(c.m))
+	for k := range c.m {
+		keys = append(keys, k)
+	}
+	return keys
+}
